@@ -82,6 +82,12 @@ def diagramHandle : List Sexp → Option Sexp
       | none => pure (.atom "hang")
       | some ds =>
         pure (.list (.atom "ok" :: ds.map (fun d => .list [optStrS d.name, ofNat d.index, treeS d.tree])))
+  | .atom "diagram-ranked" :: .list ranks :: nodes => do
+      -- `diagram-ranked (<rank of element i>*) <node>*` ↦ `(<rankedB> <fuelBound>)`
+      let rs ← ranks.mapM nat?
+      let g ← nodes.mapM node?
+      let R := rs.foldl max 0
+      pure (.list [ofBool (rankedB g (fun u => rs.getD u 0)), ofNat (fuelBound g R)])
   | _ => none
 
 end PP.Driver
